@@ -133,7 +133,13 @@ func (e *Enc) backgroundO(n int, defsOn bool, o *Obligation) string {
 	if e.needFP {
 		b.WriteString(fpPrelude)
 	}
-	if e.needB {
+	rawB := false
+	for _, l := range e.cs.Raw {
+		if strings.Contains(l, " B)") || strings.Contains(l, "(B)") || strings.Contains(l, "(B ") {
+			rawB = true // a user-declared function over byte strings: the sort must exist in every query
+		}
+	}
+	if e.needB || rawB {
 		b.WriteString(bytesPrelude)
 		if !e.liteB && (e.token || e.noFacts || e.ct != nil && (e.ct.Opts["bytes-axioms"] != "" || e.ct.Opts["bytes-bound"] != "")) {
 			b.WriteString(bytesAxioms)
